@@ -138,12 +138,19 @@ func c01MultiDocs(feature string) map[string]J {
 			"byName": J{"type": "object", "additionalProperties": J{"$ref": "common.json#/components/schemas/Pet"}}}}
 		schemas["Both"] = J{"allOf": []interface{}{J{"$ref": "common.json#/components/schemas/Pet"}, J{"type": "object", "properties": J{"extra": J{"type": "string"}}}}}
 		schemas["Either"] = J{"oneOf": []interface{}{J{"$ref": "common.json#/components/schemas/Pet"}, J{"$ref": "common.json#/components/schemas/Error"}}}
+	case "same-name":
+		// this document has components of its own with the names of the other document's, one of them renamed: a
+		// reference into the other document means the other document's component
+		schemas["Pet"] = J{"type": "object", "x-go-name": "LocalPet", "properties": J{"nick": J{"type": "string"}}}
+		schemas["Error"] = J{"type": "object", "properties": J{"code": J{"type": "integer"}}}
+		schemas["Holder"] = J{"type": "object", "properties": J{"theirs": J{"$ref": "common.json#/components/schemas/Pet"}, "ours": J{"$ref": "#/components/schemas/Pet"},
+			"theirErr": J{"$ref": "common.json#/components/schemas/Error"}, "ourErr": J{"$ref": "#/components/schemas/Error"}}}
 	}
 	main := J{"openapi": "3.0.3", "info": J{"title": "main", "version": "1"}, "paths": paths, "components": J{"schemas": schemas}}
 	return map[string]J{"common.json": common, "api.json": main}
 }
 
-var c01MultiFeatures = []string{"schema", "parameter", "response", "pathitem", "pathitem-response", "compose"}
+var c01MultiFeatures = []string{"schema", "parameter", "response", "pathitem", "pathitem-response", "compose", "same-name"}
 
 // c01MultiDocRun builds the two-document specifications under every framework, strict on and off, with and without client.
 func c01MultiDocRun(ctx *Ctx) error {
